@@ -5,9 +5,12 @@ import (
 	"bytes"
 	"context"
 	"encoding/json"
+	"errors"
 	"fmt"
 	"os"
+	"os/exec"
 	"path/filepath"
+	"regexp"
 	"strings"
 	"testing"
 
@@ -49,7 +52,8 @@ type SessionArgs struct {
 }
 
 type SessionOut struct {
-	Errs []string `json:"errs"`
+	Errs    []string `json:"errs"`
+	Globals string   `json:"globals"` // the session's globals when it ended (saved form), whatever was written to disk
 }
 
 func initChild() {
@@ -65,8 +69,14 @@ func sessionMain(raw json.RawMessage) int {
 	initChild()
 	o := repl.EvalStringOptions()
 	o.AutoLoad, o.AutoSave = a.AutoLoad, a.AutoSave
+	var st *eval.State
+	o.PreInput = func(s *eval.State) { st = s }
 	_, errs, _ := repl.EvalStringWithOption(context.Background(), o, a.Program)
-	b, _ := json.Marshal(SessionOut{Errs: errs})
+	var final bytes.Buffer
+	if st != nil {
+		_, _ = st.SaveGlobals(&final)
+	}
+	b, _ := json.Marshal(SessionOut{Errs: errs, Globals: final.String()})
 	_, _ = os.Stdout.Write(b)
 	return 0
 }
@@ -166,6 +176,11 @@ func prepare(c Case) (dirA string, rf refs, err error) {
 		return dirA, rf, fmt.Errorf("harness: state B does not load back: %v %s", err, d.LoadErr)
 	}
 	rf.globB = d.Globals
+	// without any fault: what the next session restores is what this session ended with
+	var so SessionOut
+	if json.Unmarshal(r.Stdout, &so) == nil && so.Globals != "" && so.Globals != d.Globals {
+		return dirA, rf, fmt.Errorf("the session ended normally with these globals:\n%s\nbut the next session restores:\n%s\n(program: %s)", trunc([]byte(so.Globals)), trunc([]byte(d.Globals)), c.ProgB)
+	}
 	return dirA, rf, nil
 }
 
@@ -357,7 +372,15 @@ func genPair(t *rapid.T) (string, string) {
 		na = 0
 	}
 	var b []string
-	switch rapid.IntRange(0, 4).Draw(t, "shape") {
+	switch rapid.IntRange(0, 5).Draw(t, "shape") {
+	case 5: // nothing but updates of elements of containers that exist already (large and small ones)
+		if progA == "" {
+			progA = "keepa = 1"
+		}
+		progA += "\nbigm = {\"a\": 1, \"b\": 2, \"c\": 3, \"d\": 4, \"e\": 5, \"f\": 6}\nbiga = 0:12\nsmallm = {\"k\": 1}\nsmalla = [1, 2, 3]"
+		for i := rapid.IntRange(1, 3).Draw(t, "nupdates"); i > 0; i-- {
+			b = append(b, rapid.SampledFrom([]string{"bigm.a = 100", "bigm[\"zz\"] = 42", "biga[3] = 99", "smallm.k = 2", "smalla[0] = 7", "bigm.b = [1]", "del(bigm.c)", "biga[-1] = \"s\""}).Draw(t, "update"))
+		}
 	case 0: // grow
 		for i := na; i < na+rapid.IntRange(1, 30).Draw(t, "grow"); i++ {
 			b = append(b, genBinding(t, i))
@@ -381,6 +404,109 @@ func genPair(t *rapid.T) (string, string) {
 		b = append(b, "del(v01)")
 	}
 	return progA, strings.Join(b, "\n")
+}
+
+// ---- system call level: what a save does to ./.gr --------------------------------------------------------------------
+//
+// The crash points the hooks expose sit before and after the rename; a window between two file system operations
+// (unlink then rename, truncate then write) has none. Tracing the save shows such windows directly: apart from being
+// read by the auto-load, ./.gr may only ever be the target of one rename. The same with the rename made to fail
+// (strace's fault injection): a save that cannot rename must leave ./.gr alone.
+
+var errNoTrace = errors.New("no system call trace")
+
+var touchesGr = regexp.MustCompile(`^[0-9]+ +([a-z0-9_]+)\((.*)$`)
+
+func tracedSave(dirA string, rf refs, c Case, failRename bool) error {
+	dir, err := os.MkdirTemp("", "verif-c18-trace-")
+	if err != nil {
+		return fmt.Errorf("harness: %v", err)
+	}
+	defer os.RemoveAll(dir)
+	if rf.hasA {
+		_ = os.WriteFile(filepath.Join(dir, ".gr"), rf.bytesA, 0o644)
+	}
+	trace := filepath.Join(dir, "zz-trace.txt")
+	prefix := []string{"strace", "-f", "-qq", "-o", trace, "-e", "trace=open,openat,creat,unlink,unlinkat,rename,renameat,renameat2,truncate,ftruncate,link,linkat,symlink,symlinkat"}
+	if failRename {
+		prefix = append(prefix, "-e", "inject=rename,renameat,renameat2:error=EBUSY")
+	}
+	r := child.Spawn("c18-session", SessionArgs{Program: c.ProgB, AutoLoad: true, AutoSave: true}, child.Opts{Dir: dir, RlimitFsize: -1, Prefix: prefix})
+	if r.Err != nil || r.TimedOut {
+		return fmt.Errorf("harness: traced child %s %v", r, r.Err)
+	}
+	tb, err := os.ReadFile(trace)
+	if err != nil || len(tb) == 0 || r.Exit != 0 {
+		// tracing is not possible here (ptrace not permitted, ...): nothing can be said, which is not a violation
+		return errNoTrace
+	}
+	what := "a save"
+	if failRename {
+		what = "a save whose rename fails (EBUSY)"
+	}
+	renames := 0
+	for _, line := range strings.Split(string(tb), "\n") {
+		m := touchesGr.FindStringSubmatch(line)
+		if m == nil || !(strings.Contains(m[2], "\".gr\"") || strings.Contains(m[2], "/.gr\"")) {
+			continue
+		}
+		call, rest := m[1], m[2]
+		switch {
+		case strings.HasPrefix(call, "rename"):
+			if !strings.Contains(rest[strings.Index(rest, ",")+1:], ".gr\"") {
+				return fmt.Errorf("%s renames ./.gr away: %s", what, line)
+			}
+			renames++
+		case call == "open" || call == "openat":
+			if strings.Contains(rest, "O_WRONLY") || strings.Contains(rest, "O_RDWR") || strings.Contains(rest, "O_TRUNC") || strings.Contains(rest, "O_CREAT") {
+				return fmt.Errorf("%s opens ./.gr for writing (it may only be replaced by a rename): %s", what, line)
+			}
+		default:
+			return fmt.Errorf("%s does %s on ./.gr (it may only be replaced by a rename): %s", what, call, line)
+		}
+	}
+	got, has := readGr(dir)
+	if failRename {
+		if has != rf.hasA || !bytes.Equal(got, rf.bytesA) {
+			return fmt.Errorf("%s changed ./.gr: %d bytes, it had %d (present=%v/%v)", what, len(got), len(rf.bytesA), has, rf.hasA)
+		}
+		return nil
+	}
+	if renames > 1 {
+		return fmt.Errorf("%s renames onto ./.gr %d times", what, renames)
+	}
+	if renames == 1 && !(has && bytes.Equal(got, rf.bytesB)) {
+		return fmt.Errorf("%s: ./.gr is not the new state after the rename", what)
+	}
+	return nil
+}
+
+func TestTracedSaves(t *testing.T) {
+	if _, err := exec.LookPath("strace"); err != nil {
+		t.Skip("strace not available")
+	}
+	pbt.Check(t, 24, 240, func(rt *rapid.T) {
+		progA, progB := genPair(rt)
+		c := Case{ProgA: progA, ProgB: progB, Fsize: -1}
+		dirA, rf, err := prepare(c)
+		if dirA != "" {
+			defer os.RemoveAll(dirA)
+		}
+		if err != nil {
+			pbt.Fail(rt, "traced", c, "%v", err)
+		}
+		for _, failRename := range []bool{false, true} {
+			err := tracedSave(dirA, rf, c, failRename)
+			if errors.Is(err, errNoTrace) {
+				pbt.Label("traced-save:tracing-not-possible")
+				return
+			}
+			if err != nil {
+				pbt.Fail(rt, "traced", c, "%v\nstate A:\n%s\nmutation giving B:\n%s", err, trunc([]byte(progA)), trunc([]byte(progB)))
+			}
+		}
+		pbt.Case(rf.hasA, progA+"|"+progB, "traced-save", "traced-save-with-failing-rename")
+	})
 }
 
 func TestCrashPoints(t *testing.T) {
